@@ -91,6 +91,13 @@ var extraInputs = []string{
 	"[[ a == @() ]]\n",
 	"case x in @()) echo e;; esac\n",
 	"echo ?() *() !()\n",
+	// inputs that end in a word the lexer treats specially, and inputs that
+	// begin with a construct whose parsing looks back at the previous token
+	"echo function\n", "a=1; export function\n", "function\n", "echo function", "echo in\n", "echo do\n", "echo {\n", "echo time\n", "echo select\n", "echo coproc\n", "echo [[\n", "echo ]]\n", "echo esac\n", "echo then\n", "echo !\n",
+	"for\n", "case\n", "if\n", "select\n", "coproc\n", "time\n", "[[\n", "{\n", "(\n", "!\n", "foo() \n", "declare\n", "let\n",
+	"@(a|b)\n", "+(x) y\n", "!(a)\n", "?(z) w\n", "*(q)\n", "@(a|b) c; +(d)\n", "=~ x\n", "]] a\n", "done\n", "} a\n", ") a\n", ";; a\n", "in a\n", "a[1]=2\n", "[1]=2\n", "(a b)\n", "$(a) b\n", "<(a) b\n", "<<EOF\nx\nEOF\n", "#c\na\n", "\\\na\n",
+	// multi-line first statements and blank or comment-only first lines
+	"if true\nthen\necho yes\nfi\necho done\n", "\n\n# only a comment\n\necho a\n", "while a\ndo\nb\ndone\n", "a &&\nb ||\nc\n", "f() {\na\n}\nf\n", "cat <<EOF\none\ntwo\nEOF\necho after\n",
 	// look-ahead at the end of a line (an interactive parser must not wait)
 	"cat <1\necho next\n", "cat <1-\necho next\n", "cat <12-3\necho next\n", "echo a <\necho next\n", "echo `echo a\\`\necho next\n", "echo \\\\\necho next\n", "echo a\\\\\necho next\n",
 	"echo *\necho next\n", "echo @\necho next\n", "echo a?\necho next\n", "echo +\necho next\n", "echo $\necho next\n", "echo ${a}$\necho next\n", "echo a=\necho next\n", "a=\necho next\n", "a[1]=\necho next\n", "echo a|\ncat\n", "echo a &\necho next\n", "echo a;\necho next\n", "echo [\necho next\n", "echo {\necho next\n", "echo }\necho next\n", "echo !\necho next\n", "echo %\necho next\n", "echo ~\necho next\n", "echo a#\necho next\n", "echo -\necho next\n", "echo <(\na)\n", "echo $(\na)\n", "echo $((\n1))\n", "((\n1))\n", "echo a>\nf\n", "echo a>|\nf\n", "echo a<<<\nb\n", "echo a&>\nf\n", "echo a >&\n2\n",
@@ -117,6 +124,14 @@ var extraInputs = []string{
 	"f() {\n\tcat <<-EOF | tr a b\n\t\tx $(c1 \\\n\t\t\tc2) y\n\tEOF\n\tcat <<-E2\n\t\t$(d1 &&\n\t\t\td2)\n\tE2\n}\n",
 	"cat <<EOF\n$(foo \\\n\tbar)\nEOF\n",
 	"a=(\n\tb # c\n\td\n)\ncat <<-EOF\n\t$(a=(\n\t\tb\n\t))\n\tEOF\n",
+}
+
+// specialEndings are inputs that leave the lexer right after a word or
+// token it treats specially; each is tried as the only earlier input of a
+// reused Parser before every hand-written input.
+var specialEndings = []string{
+	"echo function\n", "echo function", "function\n", "export function\n", "echo in\n", "echo do", "echo {\n", "echo time\n", "echo select", "echo coproc\n", "echo [[\n", "[[ a =~ (b", "[[ a =~ b", "echo ]]\n", "echo esac", "echo then\n", "echo !\n",
+	"for", "case x in", "if", "select", "coproc", "time", "[[", "{", "(", "!", "foo() ", "declare", "let", "a=(", "a=(b", "$((", "$(", "${", "`", "'", "\"", "<<EOF\n", "<<-EOF\n\t", "a |", "a &&", "a \\\n", "a #c", "a=", "a[", "x=([k]=(v))", "echo a <<EOF; x=(b (c))\n",
 }
 
 // debugHist prints every reuse-history step before it runs (development aid).
